@@ -103,6 +103,15 @@ def templates():
     add('lr-retried-after-backtrack', 2, ['E'], ['1', '+', '='], lambda n: [
         gs.Rule('stmt', A(S(C(n['E']), T('='), C(n['E'])), C(n['E']))),
         gs.Rule(n['E'], A(S(C(n['E']), T('+'), C('t')), C('t'))), gs.Rule('t', ONE)], entries=['E'])
+    # something that can match nothing and itself calls a rule stands before the recursive call
+    add('nlook-call-prefixed', 2, ['E'], ['1', '+', '-'], lambda n: [
+        gs.Rule(n['E'], A(S(('nlook', C('k')), C(n['E']), T('+'), C('t')), S(('nlook', C('k')), C('t')))), gs.Rule('k', T('-')), gs.Rule('t', ONE)])
+    add('optional-call-prefixed', 2, ['E'], ['1', '+', '-'], lambda n: [
+        gs.Rule(n['E'], A(S(('opt', C('k')), C(n['E']), T('+'), C('t')), C('t'))), gs.Rule('k', T('-')), gs.Rule('t', ONE)])
+    add('closure-call-prefixed', 2, ['E'], ['1', '+', '-'], lambda n: [
+        gs.Rule(n['E'], A(S(('clo', C('k')), C(n['E']), T('+'), C('t')), S(('clo', C('k')), C('t')))), gs.Rule('k', T('-')), gs.Rule('t', ONE)])
+    add('look-call-prefixed-aliased', 2, ['E', 'X'], ['1', '+'], lambda n: [
+        gs.Rule(n['E'], A(S(('look', C('t')), C(n['X']), T('+'), C('t')), C('t'))), gs.Rule(n['X'], C(n['E'])), gs.Rule('t', ONE)])
     # the recursive call sits in a rule whose right hand side is included, or in the base of a based rule
     add('through-include', 2, ['E'], ['1', '+'], lambda n: [
         gs.Rule('pre', S(C(n['E']), T('+'))),
